@@ -280,6 +280,9 @@ pub enum TrafKind {
     QuietAlt,
     /// UDP datagram to socket 0
     Udp,
+    /// echo request with 120 data octets, arriving in two link-layer fragments; the echo reply
+    /// needs fragmentation itself (only used in the `frag` configurations)
+    EchoBig,
 }
 
 #[derive(Clone, Copy, Debug, PartialEq, Eq, PartialOrd, Ord, Hash)]
@@ -288,6 +291,31 @@ pub enum RouteOp {
     AddSpecific,
     /// default route: via G1 -> via G2 -> none -> via G1 ...
     CycleDefault,
+    /// add (or replace) a route for `net` via `via` that expires `life_s` seconds from now
+    Add { net: RNet, via: Node, life_s: u32 },
+}
+
+#[derive(Clone, Copy, Debug, PartialEq, Eq, PartialOrd, Ord, Hash)]
+pub enum RNet {
+    /// the most specific prefix containing R2: 10.1.0.0/24, 2001:db8:2::/64
+    Narrow,
+    /// 10.1.0.0/16, 2001:db8:2::/48 (also contains R2)
+    Wide,
+    /// 0.0.0.0/0, ::/0 — a default route WITH an expiry
+    Default,
+}
+fn rnet(med: Med, n: RNet) -> (Ip, u8) {
+    match n {
+        RNet::Wide => specific_route(med),
+        RNet::Default => default_net(med),
+        RNet::Narrow => {
+            if med.is_v4() {
+                (v4(10, 1, 0, 0), 24)
+            } else {
+                (v6([0x2001, 0xdb8, 2, 0, 0, 0, 0, 0]), 64)
+            }
+        }
+    }
 }
 
 #[derive(Clone, Copy, Debug, PartialEq, Eq, PartialOrd, Ord, Hash)]
@@ -537,6 +565,8 @@ pub struct NeighH {
     pending: Vec<Viol>,
     /// 6LoWPAN: tag and IP destination of the datagram whose fragments are being sent
     frag_dst: Option<(u16, Ip)>,
+    /// per socket: time of the last poll that left data queued in it (socket back-off)
+    last_pending_poll: Vec<Option<i64>>,
 }
 
 impl Drop for NeighH {
@@ -770,12 +800,27 @@ impl NeighH {
         Some(r)
     }
 
-    fn build_traffic(&self, from: Node, kind: TrafKind) -> (Vec<u8>, (Ip, Vec<u8>)) {
+    fn build_traffic(&self, from: Node, kind: TrafKind) -> (Vec<Vec<u8>>, (Ip, Vec<u8>)) {
         let med = self.med;
         let ip = node_ip(med, from);
         let hw = node_hw(med, from, if kind == TrafKind::QuietAlt { 1 } else { 0 });
         let me = our_hw(med);
         let mine = self.our_addr_for(&ip);
+        if kind == TrafKind::EchoBig {
+            let data = [0x55u8; 120];
+            let frames = match med {
+                Med::EthV4 => {
+                    let m = stim::icmp4_echo(8, 1, 1, &data);
+                    vec![
+                        stim::eth(&me, &hw, 0x0800, &stim::ipv4_frag(&ip, &mine, 1, 64, 0x7777, 0, true, &m[..80])),
+                        stim::eth(&me, &hw, 0x0800, &stim::ipv4_frag(&ip, &mine, 1, 64, 0x7777, 80, false, &m[80..])),
+                    ]
+                }
+                Med::EthV6 => vec![stim::eth(&me, &hw, 0x86dd, &stim::ipv6(&ip, &mine, 58, 64, &stim::icmp6_echo(&ip, &mine, 128, 1, 1, &data)))],
+                Med::LowV6 => stim::lowpan_two_frags(PAN, &me, &hw, 0x5151, &ip, &mine, 58, 64, &stim::icmp6_echo(&ip, &mine, 128, 1, 1, &data), 56),
+            };
+            return (frames, (ip, hw));
+        }
         let (proto, payload) = match kind {
             TrafKind::Udp => (17, stim::udp(&ip, &mine, 7000, SOCK_PORT, &[0x55])),
             TrafKind::EchoReq => {
@@ -792,8 +837,9 @@ impl NeighH {
                     (58, stim::icmp6_echo(&ip, &mine, 129, 1, 1, &[0x55]))
                 }
             }
+            TrafKind::EchoBig => unreachable!(),
         };
-        (self.wrap_ip(&me, &hw, &ip, &mine, proto, 64, &payload), (ip, hw))
+        (vec![self.wrap_ip(&me, &hw, &ip, &mine, proto, 64, &payload)], (ip, hw))
     }
 
     /// hand one frame to the interface (poll_ingress_single) and judge whatever it answers
@@ -812,9 +858,47 @@ impl NeighH {
     }
 
     fn poll(&mut self, out: &mut Vec<Viol>) -> Vec<Ip> {
+        let before: Vec<usize> = self.m.queues.iter().map(|q| q.len()).collect();
+        let heads: Vec<Option<Ip>> = self.m.queues.iter().map(|q| q.front().cloned()).collect();
+        let limiter_idle = self.m.last_req_any.map_or(true, |p| self.now - p >= MIN_GAP);
         let ts = self.ts();
         let _ = self.iface.poll(ts, &mut self.dev, &mut self.sockets);
-        self.check_tx(out)
+        let reqs = self.check_tx(out);
+        // Clause 2, progress part. A poll in which (a) no discovery request went out although
+        // (b) the last one (for any target) is at least 1 s old, so nothing is rate limited, and
+        // (c) the socket has not been turned away during the last second (its own back-off), must
+        // transmit the socket's oldest datagram if the model has a next hop for it (on-link, or an
+        // unexpired matching route even under the strict reading of "unexpired"): the interface
+        // either knows the next hop's address (then it sends) or it does not (then it must ask).
+        // Sitting still means it treats a routable destination as having no next hop.
+        // Not applied while link-layer fragments may be pending (sockets are held back then).
+        if !self.cfg.big && reqs.is_empty() && limiter_idle {
+            for k in 0..self.n_queues() {
+                let Some(d) = &heads[k] else { continue };
+                let backoff_over = self.last_pending_poll[k].map_or(true, |p| self.now - p >= SEC);
+                let on_link = self.m.on_link(d);
+                let routable = on_link || !self.m.best(d, self.now, false).is_empty();
+                if backoff_over && routable {
+                    self.stats.inc("idle_poll_progress_checks");
+                    if self.m.queues[k].len() >= before[k] {
+                        let cause = if on_link { "stuck-on-link-without-discovery" } else { "stuck-despite-unexpired-route" };
+                        let via = self.m.next_hops(d, self.now).iter().map(|h| h.show()).collect::<Vec<_>>().join(" or ");
+                        self.viol(
+                            out,
+                            "queue",
+                            cause,
+                            format!("socket {}: oldest datagram to {} (next hop {}) neither transmitted nor was any discovery request sent, although no request was sent during the last second and the socket was not backing off", k, d.show(), via),
+                        );
+                    }
+                }
+            }
+        }
+        for k in 0..self.n_queues() {
+            if !self.m.queues[k].is_empty() {
+                self.last_pending_poll[k] = Some(self.now);
+            }
+        }
+        reqs
     }
 
     /// judge all frames handed to the device since the last call; returns the discovery targets seen
@@ -1171,6 +1255,7 @@ impl Harness for NeighH {
             log: vec![],
             pending: vec![],
             frag_dst: None,
+            last_pending_poll: vec![None; cfg.n_socks + cfg.icmp as usize],
         };
         h.m.queues = vec![VecDeque::new(); cfg.n_socks + cfg.icmp as usize];
         h.m.addrs = our_addrs(med, AddrState::Base);
@@ -1235,17 +1320,21 @@ impl Harness for NeighH {
                 self.apply_disc(from, kind, out);
             }
             Ev::Traffic { from, kind } => {
-                let (frame, (ip, hw)) = self.build_traffic(from, kind);
+                let (frames, (ip, hw)) = self.build_traffic(from, kind);
                 let now = self.now;
                 if self.m.confirm(&ip, &hw, now) {
                     self.stats.inc("confirmations_by_traffic");
                 }
-                self.ingress(frame, out);
+                for frame in frames {
+                    self.ingress(frame, out);
+                }
             }
-            Ev::Route(RouteOp::AddSpecific) => {
-                let (net, plen) = specific_route(med);
-                let via = node_ip(med, Node::G2);
-                let exp = self.now + ROUTE_LIFETIME;
+            Ev::Route(op @ (RouteOp::AddSpecific | RouteOp::Add { .. })) => {
+                let ((net, plen), via, life) = match op {
+                    RouteOp::Add { net, via, life_s } => (rnet(med, net), node_ip(med, via), life_s as i64 * SEC),
+                    _ => (specific_route(med), node_ip(med, Node::G2), ROUTE_LIFETIME),
+                };
+                let exp = self.now + life;
                 let cidr = IpCidr::new(smol(&net), plen);
                 let route = Route { cidr, via_router: smol(&via), preferred_until: None, expires_at: Some(Instant::from_micros(exp)) };
                 let mut ok = false;
@@ -1345,7 +1434,9 @@ impl Harness for NeighH {
             .collect();
         let reqs: Vec<(Ip, i64)> = self.m.last_req.iter().filter(|(_, &t)| self.now - t < MIN_GAP).map(|(i, &t)| (i.clone(), self.now - t)).collect();
         let queues: Vec<Vec<Ip>> = self.m.queues.iter().map(|q| q.iter().cloned().collect()).collect();
-        fp128(&(real, tab, routes, reqs, queues, self.addr_state, self.default_state, &self.frag_dst))
+        let backoff: Vec<Option<i64>> = self.last_pending_poll.iter().map(|p| p.map(|p| self.now - p).filter(|&a| a < SEC)).collect();
+        let any_req = self.m.last_req_any.map(|p| self.now - p).filter(|&a| a < MIN_GAP);
+        fp128(&(real, tab, routes, reqs, queues, self.addr_state, self.default_state, &self.frag_dst, backoff, any_req))
     }
 
     fn outcome(&self) -> String {
@@ -1426,6 +1517,27 @@ fn profiles(med: Med, slots: usize) -> Vec<(&'static str, usize, bool, Vec<Ev>, 
         ];
         out.push(("routing", 2, false, a, 6, 7));
     }
+    // overlapping routes with different expiries (60 s and 120 s), same and different gateways
+    {
+        use RNet::*;
+        let add = |net, via, life_s| Ev::Route(RouteOp::Add { net, via, life_s });
+        let a = vec![
+            send(0, D::R2),
+            send(1, D::R1),
+            disc(G1, Reply),
+            disc(G2, Reply),
+            add(Narrow, G2, 60),
+            add(Narrow, G1, 60),
+            add(Wide, G2, 120),
+            add(Default, G2, 120),
+            Ev::Route(RouteOp::CycleDefault),
+            Ev::Advance(1000),
+            Ev::Advance(59000),
+            Ev::Advance(61000),
+            Ev::Poll,
+        ];
+        out.push(("routes2", 2, false, a, 5, 7));
+    }
     // ineligible / unusual assertions
     {
         let mut a = vec![
@@ -1470,6 +1582,10 @@ fn profiles(med: Med, slots: usize) -> Vec<(&'static str, usize, bool, Vec<Ev>, 
     if med != Med::EthV6 {
         let a = vec![send(0, D::N1), send(1, D::N1), disc(N1, Reply), disc(N1, ReplyAlt), Ev::Advance(1000), Ev::Advance(61000), Ev::Poll];
         out.push(("frag", 2, false, a, 7, 9));
+        // a second neighbor whose oversized echo request makes the interface build a reply that
+        // needs the (single) fragmentation buffer while fragments of a socket datagram are pending
+        let a = vec![send(0, D::N1), disc(N1, Reply), disc(N2, Reply), traf(N2, TrafKind::EchoBig), traf(N2, TrafKind::EchoReq), Ev::Advance(1000), Ev::Poll];
+        out.push(("frag2", 1, false, a, 7, 9));
     }
     // everything polled after every event: three sockets, deeper in terms of protocol steps
     {
@@ -1507,7 +1623,7 @@ fn all_cfgs(tier: Tier) -> Vec<(NeighCfg, usize)> {
                 med,
                 n_socks,
                 icmp: name == "auto",
-                big: name == "frag",
+                big: name.starts_with("frag"),
                 autopoll,
                 alphabet: Arc::new(alphabet),
                 cache_slots: slots,
